@@ -101,6 +101,13 @@ func genQCfg(rc *RunCtx) QCfg {
 		c.IDClockDrift = r.Pick(0, 3, 16, 200)
 	case "C08":
 	}
+	// names that only differ in where a separator stands: topic "t0" with channel "c0", and a topic called
+	// "t0.c0" / "t0_c0" / "t0-c0" (every character a name may contain besides letters and digits) - two
+	// queues that must not share anything, whatever a file or registry key is derived from their names
+	if nr := NewPRNG(rc.Seed ^ 0x6a3e); len(c.Topics) >= 2 && nr.Chance(1, 5) {
+		c.Topics = append([]string(nil), c.Topics...)
+		c.Topics[1] = "t0" + nr.PickS(".", "_", "-", ".") + "c0"
+	}
 	// long delays of one goroutine per step (own stream: the rest of the configuration of a seed is unchanged)
 	lr := NewPRNG(rc.Seed ^ 0x10c6de1a)
 	c.LongProb = uint32(lr.Pick(0, 0, 40, 160, 600))
